@@ -4,6 +4,7 @@ package main
 
 import (
 	"fmt"
+	"go/token"
 
 	"golang.org/x/tools/go/ssa"
 )
@@ -56,6 +57,94 @@ func checkC03(c *Check) {
 	c.require(okR, "C03.2 reader-handoff", "fsm.run", "single receiving goroutine", "-", fmt.Sprintf("readerMsgCh is received only in the FSM goroutine (receivers: %v)", sortedKeys(receivers)))
 }
 
+// handlerIsResultOf: v is the value est returned, possibly with a function
+// that does nothing substituted where est returned nil (`if h == nil { h =
+// func(…) *Notification { return nil } }`).
+func handlerIsResultOf(v, est ssa.Value) bool {
+	if v == est {
+		return true
+	}
+	phi, ok := v.(*ssa.Phi)
+	if !ok {
+		return false
+	}
+	sawEst := false
+	for i, e := range phi.Edges {
+		if e == est {
+			sawEst = true
+			continue
+		}
+		if e == ssa.Value(phi) {
+			continue // the loop carries the value unchanged
+		}
+		if ct, isCT := e.(*ssa.ChangeType); isCT {
+			e = ct.X
+		}
+		var f *ssa.Function
+		switch x := e.(type) {
+		case *ssa.MakeClosure:
+			if len(x.Bindings) == 0 {
+				f, _ = x.Fn.(*ssa.Function)
+			}
+		case *ssa.Function:
+			f = x
+		}
+		if f == nil || !returnsNilOnly(f) {
+			return false
+		}
+		// the substitute is chosen only where est is nil
+		pred := phi.Block().Preds[i]
+		guarded := false
+		for _, b := range est.(ssa.Instruction).Parent().Blocks {
+			iff, isIf := b.Instrs[len(b.Instrs)-1].(*ssa.If)
+			if !isIf {
+				continue
+			}
+			bo, isB := iff.Cond.(*ssa.BinOp)
+			if !isB || (bo.Op != token.EQL && bo.Op != token.NEQ) {
+				continue
+			}
+			cst, isC := bo.Y.(*ssa.Const)
+			if bo.X != est || !isC || !cst.IsNil() {
+				continue
+			}
+			succ := b.Succs[0]
+			if bo.Op == token.NEQ {
+				succ = b.Succs[1]
+			}
+			if len(succ.Preds) == 1 && succ.Dominates(pred) {
+				guarded = true
+			}
+		}
+		if !guarded {
+			return false
+		}
+	}
+	return sawEst
+}
+
+// returnsNilOnly: f calls nothing, stores nothing, and returns nil.
+func returnsNilOnly(f *ssa.Function) bool {
+	if len(f.Blocks) != 1 {
+		return false
+	}
+	for _, in := range f.Blocks[0].Instrs {
+		switch x := in.(type) {
+		case *ssa.DebugRef:
+		case *ssa.Return:
+			for _, r := range x.Results {
+				c, ok := r.(*ssa.Const)
+				if !ok || !c.IsNil() {
+					return false
+				}
+			}
+		default:
+			return false
+		}
+	}
+	return true
+}
+
 // handlerDiscipline: OnEstablished / handler / OnClose protocol inside one
 // session (C01.6, C03.4).
 func (c *Check) handlerDiscipline(rule string) {
@@ -80,7 +169,7 @@ func (c *Check) handlerDiscipline(rule string) {
 	okH := len(hc) == 1 && okE
 	if okH {
 		h := hc[0]
-		okH = inLoop(h.Block()) && instrDominates(est[0].(ssa.Instruction), h.(ssa.Instruction)) && h.Common().Value == est[0].(ssa.Value)
+		okH = inLoop(h.Block()) && instrDominates(est[0].(ssa.Instruction), h.(ssa.Instruction)) && handlerIsResultOf(h.Common().Value, est[0].(ssa.Value))
 		if _, isGo := h.(*ssa.Go); isGo {
 			okH = false
 		}
